@@ -1163,7 +1163,7 @@ public:
     /// character sequence. The exact search algorithm is not specified. The
     /// search considers only the interval [0, pos]. If the character is not
     /// present in the interval, npos will be returned.
-    [[nodiscard]] constexpr auto find_last_of(basic_inplace_string const& str, size_type pos = 0) const noexcept
+    [[nodiscard]] constexpr auto find_last_of(basic_inplace_string const& str, size_type pos = npos) const noexcept
         -> size_type
     {
         return basic_string_view<Char, Traits>{*this}.find_last_of(str, pos);
@@ -1173,7 +1173,7 @@ public:
     /// character sequence. The exact search algorithm is not specified. The
     /// search considers only the interval [0, pos]. If the character is not
     /// present in the interval, npos will be returned.
-    [[nodiscard]] constexpr auto find_last_of(Char c, size_type pos = 0) const noexcept -> size_type
+    [[nodiscard]] constexpr auto find_last_of(Char c, size_type pos = npos) const noexcept -> size_type
     {
         return basic_string_view<Char, Traits>{*this}.find_last_of(c, pos);
     }
@@ -1191,7 +1191,7 @@ public:
     /// character sequence. The exact search algorithm is not specified. The
     /// search considers only the interval [0, pos]. If the character is not
     /// present in the interval, npos will be returned.
-    [[nodiscard]] constexpr auto find_last_of(Char const* s, size_type pos = 0) const -> size_type
+    [[nodiscard]] constexpr auto find_last_of(Char const* s, size_type pos = npos) const -> size_type
     {
         return basic_string_view<Char, Traits>{*this}.find_last_of(s, pos);
     }
@@ -1200,7 +1200,7 @@ public:
     /// given character sequence. The search considers only the interval [0,
     /// pos]. If the character is not present in the interval, npos will be
     /// returned.
-    [[nodiscard]] constexpr auto find_last_not_of(basic_inplace_string const& str, size_type pos = 0) const noexcept
+    [[nodiscard]] constexpr auto find_last_not_of(basic_inplace_string const& str, size_type pos = npos) const noexcept
         -> size_type
     {
         return basic_string_view<Char, Traits>{*this}.find_last_not_of(str, pos);
@@ -1210,7 +1210,7 @@ public:
     /// given character sequence. The search considers only the interval [0,
     /// pos]. If the character is not present in the interval, npos will be
     /// returned.
-    [[nodiscard]] constexpr auto find_last_not_of(Char c, size_type pos = 0) const noexcept -> size_type
+    [[nodiscard]] constexpr auto find_last_not_of(Char c, size_type pos = npos) const noexcept -> size_type
     {
         return basic_string_view<Char, Traits>{*this}.find_last_not_of(c, pos);
     }
@@ -1228,7 +1228,7 @@ public:
     /// given character sequence. The search considers only the interval [0,
     /// pos]. If the character is not present in the interval, npos will be
     /// returned.
-    [[nodiscard]] constexpr auto find_last_not_of(Char const* s, size_type pos = 0) const -> size_type
+    [[nodiscard]] constexpr auto find_last_not_of(Char const* s, size_type pos = npos) const -> size_type
     {
         return basic_string_view<Char, Traits>{*this}.find_last_not_of(s, pos);
     }
